@@ -3,6 +3,11 @@
 #include "spec.h"
 #include "baseCells.h"
 #include "iterators.h"
+#include "faceijk.h"
+#include "coordijk.h"
+#ifdef LATTICE
+#include "up7model.h"
+#endif
 H3Index in_h, in_y; int in_r, in_p;
 #ifndef RES
 #define RES 0
@@ -113,6 +118,18 @@ void harness(void) {
         int f2 = firstNZpos(it.h, p, RES);
         __CPROVER_assert(it._parentRes == p && it._skipDigit == (spec_is_pentagon(P) ? (f2 ? f2 - 1 : RES) : -1), "Inv preserved");
     }
+#elif defined(LATTICE)
+    // C04.H5: the centre child sits on the same lattice point as its parent (aperture-7 refinement of the parent's address)
+    H3Index h = in_h = mkcell(RES, "in_h");
+    VP_EXCLUDE();
+    H3Index c = spec_center_child(h, RES + 1);
+    FaceIJK F1, F2;
+    H3Error e1 = _h3ToFaceIjk(h, &F1), e2 = _h3ToFaceIjk(c, &F2);
+    __CPROVER_assert(e1 == E_SUCCESS && e2 == E_SUCCESS, "both have a lattice address");
+    CoordIJK d = F1.coord;
+    if ((RES + 1) % 2) _downAp7(&d); else _downAp7r(&d);
+    VP_WITNESS("lattice");
+    __CPROVER_assert(F1.face == F2.face && d.i == F2.coord.i && d.j == F2.coord.j && d.k == F2.coord.k, "centre child = the parent's lattice point refined by one aperture-7 step, on the same face");
 #elif defined(CHILDREN)
     // concrete depth N (0..2): exact-size buffer with canaries on both sides
     H3Index h = in_h = mkcell(RES, "in_h");
